@@ -264,8 +264,8 @@ class SphericalSurfaceHistogram(TransformedHistogramMixin, HistogramND):
 
     @property
     def bin_sizes(self):
-        sizes1 = np.cos(self.get_bin_left_edges(0)) - np.cos(
-            self.get_bin_right_edges(0)
+        sizes1 = np.cos(real_edges(self.get_bin_left_edges(0))) - np.cos(
+            real_edges(self.get_bin_right_edges(0))
         )
         sizes2 = self.get_bin_widths(1)
         return reduce(np.multiply, np.ix_(sizes1, sizes2))
@@ -323,8 +323,8 @@ class SphericalHistogram(TransformedHistogramMixin, HistogramND):
         sizes1 = (
             real_edges(self.get_bin_right_edges(0)) ** 3 - real_edges(self.get_bin_left_edges(0)) ** 3
         ) / 3
-        sizes2 = np.cos(self.get_bin_left_edges(1)) - np.cos(
-            self.get_bin_right_edges(1)
+        sizes2 = np.cos(real_edges(self.get_bin_left_edges(1))) - np.cos(
+            real_edges(self.get_bin_right_edges(1))
         )
         sizes3 = self.get_bin_widths(2)
         # Hopefully correct
